@@ -557,7 +557,7 @@ class ExprMixin(CallMixin):
                     raise _Raise(self.make_exc("builtins.TypeError"), self.cur_where)
             if is_strlike(l) or is_strlike(r):
                 for side in (l, r):
-                    if isinstance(side, (NodeV, NewNode)) or (isinstance(side, Const) and side.v is None):
+                    if isinstance(side, (NodeV, NewNode)) or (isinstance(side, Const) and side.v is None) or self._is_tuple_field(side):
                         self.event("bad_concat", value=_describe(side))
                         self.may_raise("builtins.TypeError", "str + non-str", definite=True)
                         raise _Raise(self.make_exc("builtins.TypeError"), self.cur_where)
@@ -619,6 +619,17 @@ class ExprMixin(CallMixin):
                ast.BitOr: "|", ast.BitAnd: "&", ast.BitXor: "^", ast.LShift: "<<", ast.RShift: ">>",
                ast.MatMult: "@"}.get(type(op), type(op).__name__)
         return Sym("binop", sym, l, r)
+
+    def _is_tuple_field(self, v: V) -> bool:
+        """a scalar field of a node that the schema declares as a tuple (Identifier.namespace) on every kind the node can have"""
+        if not (isinstance(v, Sym) and v.op == "field" and len(v.args) >= 2 and isinstance(v.args[0], NodeV) and v.args[0].kinds):
+            return False
+        shapes = set()
+        for k in v.args[0].kinds:
+            nc = self.schema.classes.get(k)
+            fi = nc.field(v.args[1]) if nc else None
+            shapes.add(fi.shape if fi else None)
+        return shapes == {"tuple_scalar"}
 
     def percent_format(self, fmt: V, arg: V) -> V:
         if not (isinstance(fmt, Const) and isinstance(fmt.v, str)):
